@@ -322,6 +322,9 @@ async fn echo_narrow(
 #[derive(Deserialize, JsonSchema)]
 pub struct PageScan {
     tag: Option<String>,
+    min: Option<i64>,
+    ord: Option<Color>,
+    flag: Option<bool>,
 }
 
 #[derive(Deserialize, serde::Serialize, JsonSchema)]
@@ -341,7 +344,10 @@ async fn echo_page(
     let p = q.into_inner();
     let limit = rqctx.page_limit(&p).map(|l| l.get()).unwrap_or(0);
     let args = match &p.page {
-        WhichPage::First(scan) => json!({"first": scan.tag, "limit": limit}),
+        WhichPage::First(scan) => json!({
+            "first": scan.tag, "min": scan.min, "ord": scan.ord.map(|c| c.name()), "flag": scan.flag,
+            "limit": limit,
+        }),
         WhichPage::Next(sel) => json!({"next": {"n": sel.n, "s": sel.s}, "limit": limit}),
     };
     let r = respond(nonce, args, ctx_json(&rqctx));
